@@ -170,6 +170,8 @@ func main() {
 		SolverTimeout: *timeout, SolverKind: *solver, Trace: *trace, RepoPrefix: repoPrefix, MaxPaths: *maxPaths, MaxWall: *maxWall}
 	m := symgo.NewMachine(prog, mcfg)
 	m.InstallModels()
+	harnessModels := m.InstallHarnessModels(target)
+	sort.Strings(harnessModels)
 	m.Tier = 0
 	if *tier == "thorough" {
 		m.Tier = 1
@@ -245,6 +247,9 @@ func main() {
 	}
 	o.Functions = m.FunctionsExecuted()
 	o.InitNotes = m.InitNotes
+	for _, hm := range harnessModels {
+		o.InitNotes = append(o.InitNotes, "harness model replaces repository function: "+hm)
+	}
 	if *out != "" {
 		b, _ := json.MarshalIndent(o, "", " ")
 		if err := os.WriteFile(*out, b, 0o644); err != nil {
